@@ -1094,40 +1094,59 @@ def check_ctor_roles(prog, rep):
             continue
         # writer: key -> attribute
         wkey = {}
+        from ..normal import unroll_literal_loops
+
+        def self_attr_of(e):
+            if is_self_attr(e):
+                return e.attr
+            if isinstance(e, ast.Call) and call_name(e) == 'getattr' and len(e.args) == 2 and \
+                    unparse(e.args[0]) == 'self' and isinstance(e.args[1], ast.Constant):
+                return e.args[1].value
+            return None
         for k in ci.mro:
             sv = k.methods.get('save_hdf5')
             if sv is None:
                 continue
+            sv = inline_temps(unroll_literal_loops(sv))
             for st in stmts_of(sv):
                 if isinstance(st, ast.Assign) and isinstance(st.targets[0], ast.Subscript) and \
                         unparse(st.targets[0].value).endswith('.attrs') and isinstance(
-                            st.targets[0].slice, ast.Constant) and is_self_attr(st.value):
-                    wkey.setdefault(st.targets[0].slice.value, st.value.attr)
+                            st.targets[0].slice, ast.Constant) and self_attr_of(st.value):
+                    wkey.setdefault(st.targets[0].slice.value, self_attr_of(st.value))
                 for c in ast.walk(st):
                     if isinstance(c, ast.Call) and isinstance(c.func, ast.Attribute) and \
-                            c.func.attr == 'save' and len(c.args) == 2 and is_self_attr(
+                            c.func.attr == 'save' and len(c.args) == 2 and self_attr_of(
                                 c.args[0]) and isinstance(c.args[1], ast.BinOp) and isinstance(
                                     c.args[1].right, ast.Constant):
-                        wkey.setdefault(c.args[1].right.value, c.args[0].attr)
-        # reader: local -> key
+                        wkey.setdefault(c.args[1].right.value, self_attr_of(c.args[0]))
+        # reader: local -> key (or the loading expression itself, on the normal form)
+        def key_of(v):
+            v = _strip_conv(v)
+            if isinstance(v, ast.Call) and isinstance(v.func, ast.Attribute):
+                if v.func.attr == 'get_attr' and len(v.args) == 2 and isinstance(
+                        v.args[1], ast.Constant):
+                    return v.args[1].value
+                if v.func.attr == 'load' and len(v.args) == 1 and isinstance(
+                        v.args[0], ast.BinOp) and isinstance(v.args[0].right, ast.Constant):
+                    return v.args[0].right.value
+            return None
+        nf = inline_temps(f)
+        calls = [c for c in body_nodes(nf) if isinstance(c, ast.Call) and
+                 isinstance(c.func, ast.Name) and c.func.id == 'cls']
         rkey = {}
-        for st in stmts_of(f):
+        for st in stmts_of(nf):
             if isinstance(st, ast.Assign) and len(st.targets) == 1 and isinstance(
-                    st.targets[0], ast.Name):
-                v = _strip_conv(st.value)
-                if isinstance(v, ast.Call) and isinstance(v.func, ast.Attribute):
-                    if v.func.attr == 'get_attr' and len(v.args) == 2 and isinstance(
-                            v.args[1], ast.Constant):
-                        rkey[st.targets[0].id] = v.args[1].value
-                    elif v.func.attr == 'load' and len(v.args) == 1 and isinstance(
-                            v.args[0], ast.BinOp) and isinstance(v.args[0].right, ast.Constant):
-                        rkey[st.targets[0].id] = v.args[0].right.value
+                    st.targets[0], ast.Name) and key_of(st.value) is not None:
+                rkey[st.targets[0].id] = key_of(st.value)
         for c in calls:
             for p, v in bound_args(c, init).items():
                 v = _strip_conv(v)
-                if not (isinstance(v, ast.Name) and v.id in rkey and rkey[v.id] in wkey):
+                kk = rkey.get(v.id) if isinstance(v, ast.Name) else key_of(v)
+                if kk is None or kk not in wkey:
                     continue
-                attr = wkey[rkey[v.id]]
+                attr = wkey[kk]
+                v = ast.Name(id=kk, ctx=ast.Load())
+                rkey[kk] = kk
                 inf = _influence(ct, ci, init, {p})
                 n += 1
                 rep.instance('HDF5-ctor-roles', {'class': ci.name, 'key': rkey[v.id],
